@@ -186,6 +186,7 @@ GV_CANARY("SparseMatrix_ibegin entry");
 GV_CANARY("SparseMatrix_iend entry");
 //@ entry SparseMatrixGraph_ctor
 GV_CANARY("SparseMatrixGraph_ctor entry");
+GV_INIT_SparseMatrixGraph_ctor(self, sparse);    /* the base-class initializer ": Adjacency<Index>(sparse->columns())" (generated from the real text) */
 //@ end
 
 //@ harness
@@ -393,5 +394,102 @@ void h_rcm(void)
           if (GV_REV == 2 ? r_s : GV_REV) run_rcm(n, bits, 1); else run_rcm(n, bits, 0);
         }
   GV_CANARY("h_rcm end");
+}
+
+/* ---- SparseMatrixGraph(sparse): the adjacency structure of the column graph ----
+   SPEC: columns x != y are adjacent iff some row stores both.  The structure must have nodes() == columns, xadj(1) = 0,
+   xadj non-decreasing, xadj(nodes+1) == adjncy.dim(), and row x of it must list EXACTLY the neighbours of x (here:
+   strictly ascending, hence each once), which also makes it symmetric.
+   Matrices are enumerated (constant data per path) because adjncy is allocated with the computed size edges.size().
+   Row k stores column j iff bit (k-1)*cols + (j-1) of pat is set; with dup every stored entry is written twice. */
+#ifndef GV_RLO
+#define GV_RLO 0
+#define GV_RHI 2
+#define GV_CLO 0
+#define GV_CHI 3
+#endif
+#define GV_CMAX 3
+#define GV_RMAX 3
+static void run_ctor(Index r, Index c, unsigned pat, bool dup)
+{
+  struct SparseMatrix sm;
+  bool share[GV_CMAX + 1][GV_CMAX + 1];
+  for (Index x = 0; x <= GV_CMAX; x++)
+    for (Index y = 0; y <= GV_CMAX; y++) share[x][y] = 0;
+  Index nnz = 0;
+  for (Index k = 1; k <= GV_RMAX; k++)
+    for (Index j = 1; j <= GV_CMAX; j++)
+      if (k <= r && j <= c && ((pat >> ((k - 1) * c + (j - 1))) & 1u))
+        {
+          nnz += dup ? 2 : 1;
+          for (Index j2 = 1; j2 <= GV_CMAX; j2++)
+            if (j2 <= c && j2 != j && ((pat >> ((k - 1) * c + (j2 - 1))) & 1u)) share[j][j2] = 1;
+        }
+  sm.rows_ = r; sm.cols_ = c; sm.rcnt_ = r; sm.rnxt_ = r + 1; sm.ncnt_ = nnz;
+  sm.nonz = 0;                                   /* the values are not read by the constructor */
+  sm.rptr = GV_NEW(Index, r + 2);
+  sm.rptr1 = sm.rptr + 1;
+  sm.cind = GV_NEW(Index, nnz);
+  Index cnt = 0;
+  sm.rptr[1] = 0;
+  for (Index k = 1; k <= GV_RMAX; k++)
+    if (k <= r)
+      {
+        sm.rptr[k] = cnt;
+        for (Index j = 1; j <= GV_CMAX; j++)
+          if (j <= c && ((pat >> ((k - 1) * c + (j - 1))) & 1u))
+            {
+              sm.cind[cnt] = j; cnt++;
+              if (dup) { sm.cind[cnt] = j; cnt++; }
+            }
+        sm.rptr[k + 1] = cnt;
+      }
+
+  struct Adjacency g;
+  SparseMatrixGraph_ctor(&g, &sm);
+
+  __CPROVER_assert(g.nods == c, "graph.nodes() == sparse.columns()");
+  __CPROVER_assert(SAME(g.xadj.m, g.xadj.e) && g.xadj.e - g.xadj.m >= c + 2 && g.xadj.e - g.xadj.m >= 3, "xadj holds max(nodes+2, 3) slots");
+  __CPROVER_assert(g.xadj.m[1] == 0, "xadj(1) == 0");
+  if (c == 0) __CPROVER_assert(g.xadj.m[2] == 0, "empty graph: xadj(2) == 0");
+  Index gn = (Index)(g.adjncy.e - g.adjncy.m);
+  __CPROVER_assert(g.xadj.m[c + 1] == gn, "xadj(nodes+1) == adjncy.dim()");
+  for (Index x = 1; x <= GV_CMAX; x++)
+    if (x <= c)
+      {
+        Index lo = g.xadj.m[x], hi = g.xadj.m[x + 1];
+        Index want = 0;
+        for (Index y = 1; y <= GV_CMAX; y++) if (share[x][y]) want++;
+        __CPROVER_assert(0 <= lo && lo <= hi && hi <= gn, "xadj is non-decreasing and inside adjncy");
+        __CPROVER_assert(hi - lo == want, "degree(x) == number of columns that share a row with x");
+        for (Index k = 0; k < 2 * GV_CMAX; k++)
+          if (0 <= lo && lo <= k && k < hi && hi <= gn)
+            {
+              Index y = g.adjncy.m[k];
+              __CPROVER_assert(1 <= y && y <= c && y != x, "a neighbour is another column");
+              if (1 <= y && y <= c)
+                {
+                  __CPROVER_assert(share[x][y], "listed neighbours share a row with x");
+                  __CPROVER_assert(share[y][x], "adjacency is symmetric");
+                }
+              if (k > lo) __CPROVER_assert(g.adjncy.m[k - 1] < y, "a row of the adjacency is strictly ascending (no repeated entry)");
+            }
+      }
+}
+
+void h_ctor(void)
+{
+  Index r_s, c_s;
+  unsigned p_s;
+  bool d_s;
+  __CPROVER_assume(GV_RLO <= r_s && r_s <= GV_RHI && GV_CLO <= c_s && c_s <= GV_CHI);
+  for (Index r = GV_RLO; r <= GV_RHI; r++)
+    for (Index c = GV_CLO; c <= GV_CHI; c++)
+      for (unsigned pat = 0; pat < (1u << (r * c)); pat++)
+        if (r == r_s && c == c_s && pat == p_s)
+          {
+            if (d_s) run_ctor(r, c, pat, 1); else run_ctor(r, c, pat, 0);
+          }
+  GV_CANARY("h_ctor end");
 }
 //@ end
